@@ -441,7 +441,7 @@ impl fmt::Display for RangeValue<'_> {
       RangeValue::IDENT(ident, _) => write!(f, "{}", ident),
       RangeValue::INT(i) => write!(f, "{}", i),
       RangeValue::UINT(i) => write!(f, "{}", i),
-      RangeValue::FLOAT(fl) => write!(f, "{}", fl),
+      RangeValue::FLOAT(fl) => fmt_float(f, *fl),
     }
   }
 }
@@ -475,13 +475,24 @@ pub enum Numeric {
   FLOAT(f64),
 }
 
+/// Writes a float so that it is read back as a float literal: `{}` prints an
+/// integral `f64` without fraction or exponent (`1.0` as `1`), which CDDL reads
+/// as an integer.
+pub(crate) fn fmt_float(f: &mut fmt::Formatter, v: f64) -> fmt::Result {
+  if v.is_finite() && v.fract() == 0.0 {
+    write!(f, "{}.0", v)
+  } else {
+    write!(f, "{}", v)
+  }
+}
+
 impl fmt::Display for Value<'_> {
   fn fmt(&self, f: &mut fmt::Formatter) -> fmt::Result {
     match self {
       Value::TEXT(text) => write!(f, "\"{}\"", text),
       Value::INT(i) => write!(f, "{}", i),
       Value::UINT(ui) => write!(f, "{}", ui),
-      Value::FLOAT(float) => write!(f, "{}", float),
+      Value::FLOAT(float) => fmt_float(f, *float),
       Value::BYTE(bv) => write!(f, "{}", bv),
     }
   }
